@@ -9,22 +9,82 @@ units = json.load(open(os.path.join(VERIF, 'specs', 'units.json')))['units']
 TECH = 'contract-based deductive verification (Verus SMT on mechanically extracted real functions; Kani/CBMC contracts and bounded harnesses on the real crate)'
 
 CLAIMS = {
+    'C02': dict(
+        text='verify / verify_rln_proof / verify_with_roots carry postconditions taken from the property: Ok(true) only if the Groth16 check passed for exactly '
+             'the carried values in circuit order, carried x == hash_to_field(signal bytes [296..296+len]), carried root == tree root / member of the non-empty root set. '
+             'Verus discharges them on the real bodies, so dropping or weakening a check fails a named clause.',
+        note='Assumed (uninterpreted): ark-groth16 verification (groth16_ok), proof point decoding, Keccak; the tree is abstract here (its root is decided under C06). '
+             'RLN struct re-declared with the two fields these functions read.',
+        design='DESIGN.md §4 C02'),
+    'C03': dict(
+        text='Nullifier independence of the signal, exact recovery of the secret from two shares (proved from nat-mod-P arithmetic), error instead of crash on degenerate shares, '
+             'no output across different external nullifiers: postconditions / lemmas over the contracts of proof_values_from_witness, compute_id_secret, recover_id_secret.',
+        note='Field division axiom (b != 0 ==> (a/b)*b == a) and primality of P assumed; "different nullifier" lemma is stated under the NAMED assumption that Poseidon is injective.',
+        design='DESIGN.md §4 C03'),
+    'C04': dict(
+        text='proof_values_from_witness is proved to return exactly y = s + x*H(s,e,m), nullifier = H(H(s,e,m)), root = fold of H(H(s),limit) along the path (bit 0 = left child), '
+             'x and e carried through; compute_tree_root by a loop invariant over any path length.',
+        note='Poseidon is an uninterpreted function; clause 2 of the statement (equality with the circuit outputs) needs the semantics of graph.bin and is NOT claimed.',
+        design='DESIGN.md §4 C04'),
     'C06': dict(
-        text='Every public operation of the tree backends carries requires wf / ensures wf && view == ideal transition; '
+        text='Every public operation of the three tree backends carries requires wf / ensures wf && view == ideal transition; '
              'root, subtree roots and leaves are proved equal to the ideal pairwise-hashed array for every depth and every history '
-             '(induction over histories = inductive representation invariant). Verus discharges the obligations on the real function bodies.',
-        note='Hash is an uninterpreted function. Assumed: std specs listed in evidence (next_power_of_two, trailing_zeros, max, once, into_iter totality); '
-             'FullMerkleTree::set_range body (for_each closure) is assumed in Verus and checked by Kani on the real crate at bounded depth (reported as bounded).',
+             '(inductive representation invariant). Verus discharges the obligations on the real function bodies (update_nodes, update_hashes, '
+             'recalculate_from, get_subtree_root, proof loops included).',
+        note='Hash is an uninterpreted function. Assumed: std specs listed in evidence; FullMerkleTree::set_range / new bodies are assumed in Verus and checked by Kani on the real crate at '
+             'bounded depth (reported as bounded); OptimalMerkleTree::set_range body (enumerate over a generic iterator) is an UNCHECKED assumption; the persistent backend is verified '
+             'against an assumed contract of the pmtree dependency. Known finding: PmTree remove_indices_and_set_leaves (pinned by an existing test).',
         design='DESIGN.md §4 C06'),
     'C07': dict(
-        text='proof(i) is proved to return exactly the ideal path (one sibling per level, LSB-first direction bits) for every wf tree and position; '
-             'completeness / binding follow as lemmas over fold_path under the named injectivity idealisation.',
-        note='Hash uninterpreted; binding lemmas assume spec_hash2 injective (named assumption). fold/map based proof accessors: see evidence.',
+        text='proof(i) is proved to return exactly the ideal path (one sibling per level, LSB-first direction bits) for every wf tree and position, verify() to accept iff the path folds to the ideal root; '
+             'completeness (fold of the ideal path is the root) and position decoding are machine-checked lemmas over the ideal tree.',
+        note='Hash uninterpreted; fold/map based proof accessors are assumed in Verus and Kani-checked at bounded path length. Binding under hash injectivity is not yet a checked lemma (not claimed).',
         design='DESIGN.md §4 C07'),
+    'C08': dict(
+        text='override_range of each backend carries the ideal contract: accepted batch == reset every removed position then write the leaves, every other leaf / flag / mark unchanged; rejected batch changes nothing; no panic. '
+             'Proved by Verus on the (fixed) real bodies of Full and Optimal and on the adapter dispatch and remove_indices.',
+        note='As C06. Known findings (not fixable without editing a pinned test): PmTree::remove_indices_and_set_leaves (combined remove + write batches).',
+        design='DESIGN.md §4 C08'),
+    'C09': dict(
+        text='Poseidon::hash is proved equal to the reference permutation (recursive spec: round constants, full/partial S-box schedule, MDS mix) for every field and every well-shaped parameter set, '
+             'Err exactly for empty input / missing parameters; ROUND_PARAMS equals the circomlib table; hash_to_field == LE(Keccak256(bytes)) mod P.',
+        note='Keccak, field operations and the ark/sbox closure bodies are assumed by contract; that the Grain-LFSR generator reproduces circomlib constants and cross-thread purity are NOT decided.',
+        design='DESIGN.md §4 C09'),
+    'C10': dict(
+        text='Every serialiser has an exact layout postcondition over byte sequences and every decoder/encoder pair a machine-checked round-trip lemma for all values and lengths; '
+             'deserialize_witness is Ok iff the declared lengths fit and all bytes are consumed.',
+        note='BigUint / Fr conversions assumed by contract (LE value, mod P); normalize_usize and bytes_le_to_vec_usize are Kani-checked (the former completely, the latter bounded). JSON codec (serde) not decided.',
+        design='DESIGN.md §4 C10'),
+    'C12': dict(
+        text='With requires true, Verus discharges every slice bound, unwrap and arithmetic side condition of the proving-request decoders and witness helpers, and proves Ok ==> message id < limit and < 2^16, '
+             'equal path lengths, binary direction values, inputs placed at declared offsets (errors instead of panics for malformed requests).',
+        note='"Ok ==> the proof verifies" additionally needs Groth16 completeness over the bundled key and graph (C01, not applicable): the claim is no success on unsatisfiable requests and no crash in the functions under contract. '
+             'inputs_for_witness_calculation (for_each closure) and calc_witness glue are assumed.',
+        design='DESIGN.md §4 C12'),
+    'C13': dict(
+        text='verify, verify_rln_proof, verify_with_roots, recover_id_secret, get_proof and the byte decoders are verified with requires true: no slice / overflow / unwrap panic on any byte string; '
+             'Ok(true) implies every 32-byte public value is canonically encoded (< P).',
+        note='Point decoding / Groth16 assumed total; Vec<u8> != [u8] comparison assumed by contract.',
+        design='DESIGN.md §4 C13'),
+    'C14': dict(
+        text='keygen / extended_keygen / seeded variants are proved to return commitment == H(secret) and secret == H(trapdoor, nullifier); seeded variants equal a spec function of the seed bytes alone; '
+             'exporters write the canonical 32-byte encodings in order.',
+        note='Keccak, ChaCha20 and Fr::rand are uninterpreted; distinctness of distinct seeds, the documented reference identities and thread independence are NOT decided.',
+        design='DESIGN.md §4 C14'),
     'C15': dict(
-        text='Every mutator has a postcondition on the written-flags view (write => 1, removal => 0, others unchanged); proved by Verus on the real bodies.',
-        note='get_empty_leaves_indices iterator chain: see evidence (assumed + Kani bounded).',
+        text='Every mutator of every backend has a postcondition on the written-flags view (write => 1, removal => 0, others unchanged, nothing marked above the high-water mark); '
+             'proved by Verus on the real bodies; get_empty_leaves_indices == ascending unset positions below the mark (Kani, bounded).',
+        note='get_empty_leaves_indices iterator chain assumed in Verus and Kani-checked (Full, Optimal) / unchecked (adapter, same text). The reopen clause (flags are not persisted by PmTree::new on load) is a known limitation recorded in DESIGN.md, not decided by a contract.',
         design='DESIGN.md §4 C15'),
+    'C19': dict(
+        text='Operator helpers are loop-free / width-bounded: Kani harnesses over full-domain operands are complete proofs of circom semantics, canonical results and no panic.',
+        note='Fr helpers run over a canonical-integer model of Fr extracted mechanically each run; mul/inv/pow of ruint and ark-ff are trusted.',
+        design='DESIGN.md §4 C19'),
+    'C20': dict(
+        text='evaluate is proved to return interp(nodes, inputs, output) for every well-formed graph of any size (loop invariant values[j] == interp(j)); populate_inputs places every named vector at its declared '
+             'offset independent of map order; node / operator storage conversions round-trip for every node.',
+        note='Operator semantics uninterpreted here (C19); prost framing, WriteBackReader and calc_witness glue not decided. Known finding: `as u32` index truncation for graphs above 2^32 nodes.',
+        design='DESIGN.md §4 C20'),
 }
 
 NOT_APPLICABLE = {
